@@ -1,15 +1,15 @@
 SPECIFICATION GSpec
 CONSTANTS
-  Sess = {"s1"}
-  Reqs = {"r1","r2"}
-  Gets = {"g1"}
+  Sess = {"s1","s2"}
+  Reqs = {"r1"}
+  Gets = {}
   Prime <- PrimeAll
   Store = FALSE
-  Json = TRUE
-  Stateless = FALSE
+  Json = FALSE
+  Stateless = TRUE
   MaxEmit = 1
-  MaxSreq = 0
-  MaxSa = 1
+  MaxSreq = 1
+  MaxSa = 0
   Gates = FALSE
 VIEW MCView
 INVARIANTS ResumeExact IdsDense IdStable StoreBeforeDeliver CompleteAtEnd CompleteAtRest FinalObtainable RefusedOnlyOnConflict ResponseOnOwnExchange NestedRouting NoCrossSession RoutingEntryLifecycle LockDiscipline
